@@ -48,6 +48,12 @@ def strat_sde(draw, tier):
     if d > 1:
         case["copula"] = {"type": "clayton", "theta": draw(_f(0.5, 3.0)), "eta": draw(_f(0.1, 0.9))}
         case["levels"] = min(case["levels"], 1)
+    # dX = diag(X) dY is linear in X: initial values of either sign (and zero) are in its domain, not only positive ones
+    if coef == "diag" and draw(st.integers(0, 2)) == 0:
+        signs = [draw(st.sampled_from([-1.0, -1.0, 1.0, 0.0])) for _ in range(m)]
+        if all(s_ > 0 for s_ in signs):
+            signs[0] = -1.0
+        case["x0"] = [x * s_ for x, s_ in zip(case["x0"], signs)]
     return case
 
 
@@ -285,6 +291,7 @@ def body_sde(case):
 def classify_sde(case):
     return [case["coef"], f"driver-d={case['d']}", f"m={case['m']}", f"levels={case['levels']}",
             f"paths-before={case.get('paths_before', 0)}"] + ([f"tenors-{case.get('tenor_start')}"] if case["coef"] == "libor" else []) + \
+        (["diag/non-positive-initial-value"] if case["coef"] == "diag" and min(case["x0"]) <= 0 else []) + \
         sorted({branch_of(s) for s in case["margins"]}), False
 
 
